@@ -2188,6 +2188,45 @@ fn directed(i: usize) -> Option<SessionSpec> {
     }
 }
 
+/// The last SWEEP scenarios of the C17 check: the *offset sweep* (wave 16, seeded change d17b). A line is compiled at
+/// offset 0 of its own compilation unit in a session and behind all earlier code in the growing
+/// program; its meaning must not depend on where its code lies. Session `o` is a padding line whose
+/// code is exactly `o` bytes long (`ja;` = 2 bytes, `!ja;` = 3 bytes) followed by a line full of
+/// jumps (loop, `stop`, `volgende`, branches, a function with a loop of its own, called in the loop):
+/// over the sweep every jump target of that line takes every value in a window of SWEEP bytes in the
+/// model program - whatever magic value, operand-width boundary or alignment a compiler shortcut
+/// might stumble over.
+pub const SWEEP: u64 = 2048;
+
+fn offset_sweep(o: usize) -> Vec<SLine> {
+    let o = o.max(2);
+    let threes = o % 2;
+    let twos = (o - 3 * threes.min(o / 3)) / 2;
+    let mut pad: Vec<SStmt> = Vec::new();
+    for _ in 0..twos {
+        pad.push(st("ja;", false));
+    }
+    for _ in 0..threes {
+        pad.push(st("!ja;", false));
+    }
+    let observer = if o % 3 == 0 {
+        vec![
+            st("stel n = 0;", true),
+            st("stel i = 0;", true),
+            st("zolang i < 7 { i = i + 1; als i == 2 { volgende; }; als i > 5 { stop; } anders { n = n + i; }; n = n + als i % 2 == 0 { 10 } anders als i == 3 { 100 } anders { 1000 }; };", false),
+            st("[n, i];", false),
+        ]
+    } else {
+        vec![
+            st("stel n = 0;", true),
+            st("stel i = 0;", true),
+            st("zolang i < 6 { i = i + 1; als i == 2 { volgende; }; als i > 4 { stop; } anders { n = n + i; }; functie g(k) { stel j = 0; zolang ja { j = j + 1; als j > k { stop; }; als j == 1 { volgende; }; }; j }; n = n + g(i); };", false),
+            st("[n, i];", false),
+        ]
+    };
+    vec![line("pad", pad, Fail::None, true, false), line("jumps", observer, Fail::None, true, false)]
+}
+
 pub const DIRECTED: u64 = 14;
 
 /// a short random session (Miri adjunct)
@@ -2223,13 +2262,15 @@ pub fn enumerated_count(tier: Tier) -> u64 {
     }
 }
 
+pub fn random_count(tier: Tier) -> u64 {
+    match tier {
+        Tier::Quick => 12_000,
+        Tier::Thorough => 250_000,
+    }
+}
+
 pub fn scenarios(tier: Tier) -> u64 {
-    DIRECTED
-        + enumerated_count(tier)
-        + match tier {
-            Tier::Quick => 12_000,
-            Tier::Thorough => 250_000,
-        }
+    DIRECTED + enumerated_count(tier) + random_count(tier) + SWEEP
 }
 
 fn report(acc: &mut Acc, spec: &SessionSpec, r: &SessionResult, seed: u64, index: u64) {
@@ -2382,7 +2423,12 @@ pub fn scenario(acc: &mut Acc, seed: u64, index: u64, tier: Tier) {
     let s = mix(seed, TAG, index);
     let mut rng = Rng::new(s);
     let h;
-    if index < DIRECTED {
+    if index >= DIRECTED + enumerated_count(tier) + random_count(tier) && index < scenarios(tier) {
+        let o = (index - (DIRECTED + enumerated_count(tier) + random_count(tier))) as usize;
+        let sp = SessionSpec { lines: offset_sweep(o), crash: None, compile_crash: None, collect_every_step: false, alloc_mode: alloc::PLAIN, caller_releases: o % 2 == 0, ledger: false, recycle: false };
+        acc.count("offset_sweep_sessions", 1);
+        h = explore(acc, &sp, seed, index, false, &mut rng);
+    } else if index < DIRECTED {
         let sp = directed(index as usize).unwrap();
         acc.count("directed_sessions", 1);
         h = explore(acc, &sp, seed, index, index != 0 && index != 9 && index != 10 && index != 12, &mut rng);
